@@ -323,7 +323,57 @@ def scalar_space(st, fmt, oracle):
                         dict(sig, kinds2=kinds), case, {'dumped': text, 'first_difference': N.show(d)})
 
 
+def microsecond_task(fmt, oracle, values):
+    """Times and date-times with every listed microsecond value through dump_scalar / the reader (complete sub-space)."""
+    import datetime
+    import hszinc as hs
+    import pytz
+    st = Stats()
+    mode = hs.MODE_ZINC if fmt == 'zinc' else hs.MODE_JSON
+    tz = pytz.timezone('Europe/London')
+    for us in values:
+        t = datetime.time(7, 51, 43, us)
+        dt = tz.localize(datetime.datetime(2020, 6, 15, 7, 51, 43, us))
+        for kind, val, want in (('time', t, ('time', 7, 51, 43, us)), ('dt', dt, None)):
+            st.count('executions')
+            case = {'prop': 'microsecond', 'fmt': fmt, 'oracle': oracle, 'kind': kind, 'us': us}
+            sig = {'fmt': fmt, 'api': 'scalar', 'kinds': kind, 'payloads': 'microsecond'}
+            try:
+                text = hs.dump_scalar(val, mode=mode)
+                if oracle == 'own':
+                    got = O.observe(hs.parse_scalar(text, mode=mode), hs)
+                elif fmt == 'zinc':
+                    got = refzinc.read_scalar(text, '3.0')
+                else:
+                    got = refjson.read_value(text, True)
+            except Exception as ex:  # noqa
+                st.fail('reparse-raised' if oracle == 'own' else 'writer-output-rejected-by-reference-reader', dict(sig, exc=exc_name(ex)), case, {'exc': repr(ex)[:300]})
+                continue
+            ok = (got == want) if kind == 'time' else (got[0] == 'dt' and got[1] % 1000000 == us and got[1] == (dt - O.EPOCH) // O.US)
+            if not ok:
+                st.fail('roundtrip-differs' if oracle == 'own' else 'reference-reader-recovers-other-grid', dict(sig, kinds2='%s->%s' % (kind, got[0])), case,
+                        {'dumped': text, 'observed': N.show(got), 'microsecond': us})
+        st.inputs.add(h_us(fmt, us))
+    st.nontrivial |= st.inputs
+    st.c['states'] = st.c.get('states', 0) + len(values)
+    st.c['transitions'] = st.c.get('transitions', 0) + len(values)
+    return st
+
+
+def h_us(fmt, us):
+    return hash(('us', fmt, us)) & 0xffffffffffff
+
+
+def microsecond_values(quick, fmt):
+    if quick:
+        return sorted(set(list(range(0, 2000)) + list(range(0, 1000000, 97 if fmt == 'json' else 331)) + [999999, 129649, 15700]))
+    return list(range(0, 1000000, 1 if fmt == 'json' else 3))
+
+
 def replay_scalar(case, st):
+    if case.get('prop') == 'microsecond':
+        st.merge(microsecond_task(case['fmt'], case['oracle'], [case['us']]))
+        return
     sub = Stats()
     scalar_space(sub, case['fmt'], case['oracle'])
     for f in sub.failures:
@@ -361,6 +411,11 @@ def run_property(ctx, prop, fmt, oracle, module_name):
                        'payloads': len(cat_for(ver, which)), 'max_deviations': d,
                        'executions': st.c.get('executions', 0) - before})
     scalar_space(st, fmt, oracle)
+    from mc.explore import pmap, chunks
+    us_values = microsecond_values(ctx.quick, fmt)
+    for part in pmap(microsecond_task, [(fmt, oracle, c) for c in chunks(us_values, ctx.jobs * 2)], ctx.jobs):
+        st.merge(part)
+    bounds.append({'microsecond_values_through_scalar_api': len(us_values)})
     return {
         'stats': st, 'exhaustive': True,
         'rule': 'deviation-bounded choice-tree exploration: each sub-space enumerates ALL assignments of catalogue payloads to the '
